@@ -286,7 +286,10 @@ def body(max_ops, c):
     # ---- reference ---------------------------------------------------------------------------
     rb = RefBackend()
     rin = [rb.tape.new_input(v) for v in xs]
-    rout, rtrace = interpret(prog, rin, rb)
+    try:
+        rout, rtrace = interpret(prog, rin, rb)
+    except OverflowError:
+        return Outcome("numpy_rejects", detail="reference overflow (values blow up in a loop)", sample=sample)
     if not isinstance(rout, T.RV) or rout.id is None:
         return Outcome("numpy_rejects", detail="constant output", sample=sample)
     adj, live, dep = rb.tape.reverse(rout.id)
